@@ -5,13 +5,13 @@ from common import default_matches_known
 import solvelib as S
 from c07 import run_all
 matches_known = default_matches_known
-ORIGINS = ["update", "loss", "grad_nn", "grad_eq"]
+ORIGINS = ["update", "update_entry", "loss", "grad_nn", "grad_eq"]
 
 
 def with_injection(cfg, origin, k):
     """threshold-based injections need the un-faulted trajectory of the watched parameter"""
-    if origin == "update":
-        return dict(cfg, inject=dict(origin="update", k=k))
+    if origin in ("update", "update_entry"):
+        return dict(cfg, inject=dict(origin=origin, k=k))
     ref = S.reference(dict(cfg, inject=None, validation=None))
     vals = [float(p.eq_params["a"]) if origin in ("loss", "grad_eq") else float(p.nn_params.scale) for p in ref["params"]]
     if len(vals) <= k:
